@@ -460,36 +460,8 @@ func checkC10(x *Exec, c *Case) ([]Violation, bool) {
 				break
 			}
 			nt = true
-			want, got := pgwire.Kinds(rt.Msgs), kinds
-			gotMsgs := t.Msgs
-			// what the server sent after the read that timed out
-			after := 0
-			for _, m := range gotMsgs {
-				if m.Off+t.Base >= cs.TimeoutOut {
-					after++
-				}
-			}
-			carriedOn := after > 1 || (after == 1 && gotMsgs[len(gotMsgs)-1].Type != 'E')
-			if carriedOn {
-				// the server went on serving the connection: no byte was lost, so
-				// everything is answered exactly as in the undisturbed run
-				if Canonical(gotMsgs) != Canonical(rt.Msgs) {
-					add("diverges-after-read-timeout", "diverges-after-read-timeout carried-on", fmt.Sprintf("conn %d: one read reported a timeout (no byte lost) and the server carried on; it answered %q, the undisturbed run %q", i, got, want))
-				}
-				if a, b := CallbackTrace(cs), CallbackTrace(rr.Conns[i]); a != b {
-					add("diverges-after-read-timeout", "diverges-after-read-timeout carried-on callbacks", fmt.Sprintf("conn %d: one read reported a timeout (no byte lost) and the server carried on; its callbacks differ from those of the undisturbed run:\n  with timeout: %s\n  undisturbed:  %s", i, trunc(strings.ReplaceAll(a, "\n", "; "), 300), trunc(strings.ReplaceAll(b, "\n", "; "), 300)))
-				}
-				break
-			}
-			// (it gave the connection up, and may tell the client why)
-			if n := len(gotMsgs); n > 0 && after == 1 {
-				gotMsgs = gotMsgs[:n-1]
-			}
-			if len(gotMsgs) > len(rt.Msgs) || Canonical(gotMsgs) != Canonical(rt.Msgs[:len(gotMsgs)]) {
-				add("diverges-after-read-timeout", "diverges-after-read-timeout", fmt.Sprintf("conn %d: one read reported a timeout (no byte lost); the server answered %q, the undisturbed run %q - neither the same nor a prefix of it", i, got, want))
-			}
-			if a, b := CallbackTrace(cs), CallbackTrace(rr.Conns[i]); !strings.HasPrefix(b, a) {
-				add("diverges-after-read-timeout", "diverges-after-read-timeout callbacks", fmt.Sprintf("conn %d: one read reported a timeout (no byte lost); the callbacks that ran are not a prefix of those of the undisturbed run:\n  with timeout: %s\n  undisturbed:  %s", i, trunc(strings.ReplaceAll(a, "\n", "; "), 300), trunc(strings.ReplaceAll(b, "\n", "; "), 300)))
+			if ok, _, detail := afterTimeoutVerdict(rr.Conns[i], cs); !ok {
+				add("diverges-after-read-timeout", "diverges-after-read-timeout", fmt.Sprintf("conn %d: one read reported a timeout (no byte lost): %s", i, detail))
 			}
 		case "copy":
 			nt = true
